@@ -7,7 +7,9 @@ Name lookup is *computed* (`Database.table_dict` is a property over the table li
 finds exactly the listed tables under their current names" is the postcondition of that getter and
 holds after any rename by construction; it is no longer an invariant that a rename could break.
 """
-from pyvc.verify import contract, loc, loc_list, loc_dict
+from pyvc.verify import contract, loc, loc_list, loc_dict, loc_each
+from pyvc.speclib import fresh, old
+from pydbml.classes import Table, Reference, Enum, TableGroup, Project, StickyNote
 
 
 # ------------------------------------------------------------------------------------------ invariant
@@ -127,6 +129,348 @@ class add_table:
 
     def ensures_appended(self, obj, result):
         return appended(self.tables, old(self.tables), obj)
+
+    def ensures_inv(self, obj, result):
+        return db_inv(self)
+
+
+def ref_touches(db, ref):
+    """At least one endpoint column belongs to a table of this database."""
+    return (any(c.table is not None and c.table.database is db for c in ref.col1)
+            or any(c.table is not None and c.table.database is db for c in ref.col2))
+
+
+@contract('pydbml.database:Database.add_reference')
+class add_reference:
+    properties = ('C09', 'C06')
+    params = {'self': 'Database', 'obj': 'Reference'}
+
+    def requires_inv(self, obj):
+        return db_inv(self)
+
+    def raises_DatabaseValidationError(self, obj):
+        return not ref_touches(self, obj) or obj in self.refs
+
+    def modifies(self, obj):
+        return [loc(obj, 'database'), loc_list(self.refs)]
+
+    def ensures_result(self, obj, result):
+        return result is obj and obj.database is self
+
+    def ensures_appended(self, obj, result):
+        return appended(self.refs, old(self.refs), obj)
+
+    def ensures_inv(self, obj, result):
+        return db_inv(self)
+
+
+@contract('pydbml.database:Database.add_enum')
+class add_enum:
+    properties = ('C09', 'C06')
+    params = {'self': 'Database', 'obj': 'Enum'}
+
+    def requires_inv(self, obj):
+        return db_inv(self)
+
+    def raises_DatabaseValidationError(self, obj):
+        return obj in self.enums or any(e.name == obj.name and e.schema == obj.schema for e in self.enums)
+
+    def modifies(self, obj):
+        return [loc(obj, 'database'), loc_list(self.enums)]
+
+    def ensures_result(self, obj, result):
+        return result is obj and obj.database is self
+
+    def ensures_appended(self, obj, result):
+        return appended(self.enums, old(self.enums), obj)
+
+    def ensures_inv(self, obj, result):
+        return db_inv(self)
+
+
+@contract('pydbml.database:Database.add_table_group')
+class add_table_group:
+    properties = ('C09', 'C06')
+    params = {'self': 'Database', 'obj': 'TableGroup'}
+
+    def requires_inv(self, obj):
+        return db_inv(self)
+
+    def raises_DatabaseValidationError(self, obj):
+        return obj in self.table_groups or any(g.name == obj.name for g in self.table_groups)
+
+    def modifies(self, obj):
+        return [loc(obj, 'database'), loc_list(self.table_groups)]
+
+    def ensures_result(self, obj, result):
+        return result is obj and obj.database is self
+
+    def ensures_appended(self, obj, result):
+        return appended(self.table_groups, old(self.table_groups), obj)
+
+    def ensures_inv(self, obj, result):
+        return db_inv(self)
+
+
+@contract('pydbml.database:Database.add_project')
+class add_project:
+    properties = ('C09',)
+    params = {'self': 'Database', 'obj': 'Project'}
+
+    def requires_inv(self, obj):
+        return db_inv(self)
+
+    def modifies(self, obj):
+        return [loc(obj, 'database'), loc(self, 'project'), loc(old(self.project), 'database')]
+
+    def ensures_result(self, obj, result):
+        return result is obj and obj.database is self and self.project is obj
+
+    def ensures_old_detached(self, obj, result):
+        return old(self.project) is None or old(self.project) is obj or old(self.project).database is None
+
+    def ensures_inv(self, obj, result):
+        return db_inv(self)
+
+
+# ------------------------------------------------------------------------------------------ delete_*
+@contract('pydbml.database:Database.delete_table')
+class delete_table:
+    properties = ('C09',)
+    params = {'self': 'Database', 'obj': 'Table'}
+
+    def requires_inv(self, obj):
+        return db_inv(self)
+
+    def raises_DatabaseValidationError(self, obj):
+        return obj not in self.tables
+
+    def modifies(self, obj):
+        return [loc_each(self.tables, 'database'), loc_list(self.tables)]
+
+    def ensures_was_listed(self, obj, result):
+        return result in old(self.tables) and (result is obj or result == obj)
+
+    def ensures_detached(self, obj, result):
+        return result.database is None
+
+    def ensures_removed(self, obj, result):
+        return any(old(self.tables)[k] is result and removed_at(self.tables, old(self.tables), k)
+                   for k in range(len(old(self.tables))))
+
+    def ensures_inv(self, obj, result):
+        return tables_named(self) and all(r.database is self for r in self.refs)
+
+
+@contract('pydbml.database:Database.delete_project')
+class delete_project:
+    properties = ('C09',)
+    params = {'self': 'Database'}
+
+    def requires_inv(self):
+        return db_inv(self)
+
+    def raises_DatabaseValidationError(self):
+        return self.project is None
+
+    def modifies(self):
+        return [loc(self, 'project'), loc(old(self.project), 'database')]
+
+    def ensures_detached(self, result):
+        return result is old(self.project) and result.database is None and self.project is None
+
+    def ensures_inv(self, result):
+        return db_inv(self)
+
+
+@contract('pydbml.database:Database.__getitem__')
+class db_getitem:
+    properties = ('C09', 'C05')
+    params = {'self': 'Database', 'k': 'Union[int,str]'}
+    pure = True
+    allowed = ('IndexError', 'KeyError')
+
+    def requires_named(self, k):
+        return tables_named(self)
+
+    def ensures_int(self, k, result):
+        return not isinstance(k, int) or (0 <= k < len(self.tables) and result is self.tables[k]) \
+            or (k < 0 and result is self.tables[len(self.tables) + k])
+
+    def ensures_str(self, k, result):
+        return not isinstance(k, str) or (result in self.tables
+                                          and (k == result.full_name or (bool(result.alias) and k == result.alias)))
+
+
+@contract('pydbml.database:Database.delete_reference')
+class delete_reference:
+    properties = ('C09',)
+    params = {'self': 'Database', 'obj': 'Reference'}
+
+    def requires_inv(self, obj):
+        return db_inv(self)
+
+    def raises_DatabaseValidationError(self, obj):
+        return obj not in self.refs
+
+    def modifies(self, obj):
+        return [loc_each(self.refs, 'database'), loc_list(self.refs)]
+
+    def ensures_was_listed(self, obj, result):
+        return result in old(self.refs) and (result is obj or result == obj)
+
+    def ensures_detached(self, obj, result):
+        return result.database is None
+
+    def ensures_removed(self, obj, result):
+        return any(old(self.refs)[k] is result and removed_at(self.refs, old(self.refs), k)
+                   for k in range(len(old(self.refs))))
+
+    def ensures_inv(self, obj, result):
+        return tables_named(self) and all(t.database is self for t in self.tables)
+
+
+@contract('pydbml.database:Database.delete_enum')
+class delete_enum:
+    properties = ('C09',)
+    params = {'self': 'Database', 'obj': 'Enum'}
+
+    def requires_inv(self, obj):
+        return db_inv(self)
+
+    def raises_DatabaseValidationError(self, obj):
+        return obj not in self.enums
+
+    def modifies(self, obj):
+        return [loc_each(self.enums, 'database'), loc_list(self.enums)]
+
+    def ensures_was_listed(self, obj, result):
+        return result in old(self.enums) and (result is obj or result == obj)
+
+    def ensures_detached(self, obj, result):
+        return result.database is None
+
+    def ensures_removed(self, obj, result):
+        return any(old(self.enums)[k] is result and removed_at(self.enums, old(self.enums), k)
+                   for k in range(len(old(self.enums))))
+
+    def ensures_inv(self, obj, result):
+        return tables_named(self) and all(t.database is self for t in self.tables)
+
+
+@contract('pydbml.database:Database.delete_table_group')
+class delete_table_group:
+    properties = ('C09',)
+    params = {'self': 'Database', 'obj': 'TableGroup'}
+
+    def requires_inv(self, obj):
+        return db_inv(self)
+
+    def raises_DatabaseValidationError(self, obj):
+        return obj not in self.table_groups
+
+    def modifies(self, obj):
+        return [loc_each(self.table_groups, 'database'), loc_list(self.table_groups)]
+
+    def ensures_was_listed(self, obj, result):
+        return result in old(self.table_groups) and result is obj
+
+    def ensures_detached(self, obj, result):
+        return result.database is None
+
+    def ensures_removed(self, obj, result):
+        return any(old(self.table_groups)[k] is result and removed_at(self.table_groups, old(self.table_groups), k)
+                   for k in range(len(old(self.table_groups))))
+
+    def ensures_inv(self, obj, result):
+        return tables_named(self) and all(t.database is self for t in self.tables)
+
+
+@contract('pydbml.database:Database.__init__')
+class db_init:
+    properties = ('C09', 'C16', 'C15', 'C11')
+    params = {'self': 'Database', 'sql_renderer': 'Cls', 'dbml_renderer': 'Cls', 'allow_properties': 'bool'}
+
+    def modifies(self, sql_renderer, dbml_renderer, allow_properties):
+        return [loc(self, 'sql_renderer'), loc(self, 'dbml_renderer'), loc(self, 'tables'), loc(self, 'refs'),
+                loc(self, 'enums'), loc(self, 'table_groups'), loc(self, 'sticky_notes'), loc(self, 'project'),
+                loc(self, 'allow_properties')]
+
+    def ensures_empty(self, sql_renderer, dbml_renderer, allow_properties, result):
+        return (len(self.tables) == 0 and len(self.refs) == 0 and len(self.enums) == 0
+                and len(self.table_groups) == 0 and len(self.sticky_notes) == 0 and self.project is None)
+
+    def ensures_fresh_lists(self, sql_renderer, dbml_renderer, allow_properties, result):
+        # C11: every container is allocated by this call (no shared default)
+        return (fresh(self.tables) and fresh(self.refs) and fresh(self.enums)
+                and fresh(self.table_groups) and fresh(self.sticky_notes))
+
+    def ensures_options(self, sql_renderer, dbml_renderer, allow_properties, result):
+        return (self.sql_renderer is sql_renderer and self.dbml_renderer is dbml_renderer
+                and self.allow_properties is allow_properties)
+
+    def ensures_inv(self, sql_renderer, dbml_renderer, allow_properties, result):
+        return db_inv(self)
+
+
+@contract('pydbml.database:Database.__iter__')
+class db_iter:
+    properties = ('C09',)
+    params = {'self': 'Database'}
+    pure = True
+
+    def ensures_lists_tables(self, result):
+        return same_list(list(result), self.tables)
+
+
+def is_supported(obj):
+    return (isinstance(obj, Table) or isinstance(obj, Reference) or isinstance(obj, Enum)
+            or isinstance(obj, TableGroup) or isinstance(obj, Project) or isinstance(obj, StickyNote))
+
+
+@contract('pydbml.database:Database.add')
+class db_add:
+    """Dispatch: `add(obj)` behaves exactly as the add_* method of obj's kind (whose contracts carry
+    C09/C06); anything else is refused with DatabaseValidationError and nothing is written."""
+    properties = ('C09', 'C06')
+    params = {'self': 'Database', 'obj': 'Union[Table,Reference,Enum,TableGroup,Project,StickyNote,Expression,str,int,None]'}
+
+    def requires_inv(self, obj):
+        return db_inv(self)
+
+    def requires_named(self, obj):
+        return not isinstance(obj, Table) or (obj.name is not None and obj.schema is not None)
+
+    def raises_DatabaseValidationError(self, obj):
+        return (not is_supported(obj)
+                or (isinstance(obj, Table) and (obj in self.tables or name_taken(self, obj.full_name)
+                                                or (bool(obj.alias) and name_taken(self, obj.alias))))
+                or (isinstance(obj, Reference) and (not ref_touches(self, obj) or obj in self.refs))
+                or (isinstance(obj, Enum) and (obj in self.enums or any(e.name == obj.name and e.schema == obj.schema for e in self.enums)))
+                or (isinstance(obj, TableGroup) and (obj in self.table_groups or any(g.name == obj.name for g in self.table_groups))))
+
+    def modifies(self, obj):
+        return [loc(obj, 'database'), loc_list(self.tables), loc_list(self.refs), loc_list(self.enums),
+                loc_list(self.table_groups), loc_list(self.sticky_notes), loc(self, 'project'),
+                loc(old(self.project), 'database')]
+
+    def ensures_result(self, obj, result):
+        return result is obj and obj.database is self
+
+    def ensures_listed(self, obj, result):
+        return ((not isinstance(obj, Table) or appended(self.tables, old(self.tables), obj))
+                and (not isinstance(obj, Reference) or appended(self.refs, old(self.refs), obj))
+                and (not isinstance(obj, Enum) or appended(self.enums, old(self.enums), obj))
+                and (not isinstance(obj, TableGroup) or appended(self.table_groups, old(self.table_groups), obj))
+                and (not isinstance(obj, StickyNote) or appended(self.sticky_notes, old(self.sticky_notes), obj))
+                and (not isinstance(obj, Project) or self.project is obj))
+
+    def ensures_others_unchanged(self, obj, result):
+        return ((isinstance(obj, Table) or same_list(self.tables, old(self.tables)))
+                and (isinstance(obj, Reference) or same_list(self.refs, old(self.refs)))
+                and (isinstance(obj, Enum) or same_list(self.enums, old(self.enums)))
+                and (isinstance(obj, TableGroup) or same_list(self.table_groups, old(self.table_groups)))
+                and (isinstance(obj, StickyNote) or same_list(self.sticky_notes, old(self.sticky_notes))))
 
     def ensures_inv(self, obj, result):
         return db_inv(self)
